@@ -85,7 +85,7 @@ _WARN_RE = re.compile(r"^(?P<src>.*?):(?P<line>\d+)?:? ?\((?P<level>\w+)/(?P<n>\
 def split_warnings(text):
     """Split a docutils warning stream into records {src, line, level, msg} (continuation lines appended)."""
     out = []
-    for ln in text.split("\n"):  # (not splitlines(): U+2028, form feeds ... inside a message are characters of that message)
+    for ln in (text[:-1] if text.endswith("\n") else text).split("\n"):  # (not splitlines(): U+2028, form feeds ... inside a message are characters of that message)
         m = _WARN_RE.match(ln)
         if m:
             d = m.groupdict()
@@ -193,7 +193,8 @@ class SphinxBuild:
     def stream_records(self, text=None):
         """What the USER sees: the warning stream parsed into records (Sphinx' handler-level filters - suppress_warnings, once - have been applied)."""
         out = []
-        for raw in (self.warnings if text is None else text).split("\n"):
+        wtext = self.warnings if text is None else text
+        for raw in (wtext[:-1] if wtext.endswith("\n") else wtext).split("\n"):
             l = re.sub(r"\x1b\[[0-9;]*m", "", raw)
             m = self._WLINE.match(l)
             if not m:
